@@ -710,6 +710,36 @@ def gen_record(repo):
         if unparse(f.body[-1]) != "self._initdone = True":
             raise Missing(f"{cls.name}.__post_init__ must end with self._initdone = True")
         return "true"
+    def post_order(cls):
+        f, _ = post(cls)
+        names = []
+        for st in f.body:
+            if isinstance(st, ast.Expr) and isinstance(st.value, ast.Constant):
+                continue
+            if isinstance(st, ast.Assign) and len(st.targets) == 1 and isinstance(st.targets[0], ast.Attribute) \
+               and unparse(st.targets[0].value) == "self":
+                names.append(st.targets[0].attr)
+            else:
+                raise Missing(f"{cls.name}.__post_init__ statement {unparse(st)[:40]}")
+        return strlist(names)
+
+    def init_order(cls):
+        """fields the dataclass-generated __init__ assigns, in order: init=True fields, and init=False
+        fields that have a default"""
+        out = []
+        for st in cls.body:
+            if isinstance(st, ast.AnnAssign) and isinstance(st.target, ast.Name):
+                v = st.value
+                if isinstance(v, ast.Call) and unparse(v.func) == "field":
+                    kws = {k.arg: unparse(k.value) for k in v.keywords}
+                    if kws.get("init") == "False" and "default" not in kws:
+                        continue
+                out.append(st.target.id)
+        return strlist(out)
+    o.d("chanInitOrder", "List String", lambda: init_order(ch), "assigned by the generated __init__")
+    o.d("chanPostOrder", "List String", lambda: post_order(ch), "assigned by __post_init__, in order")
+    o.d("devInitOrder", "List String", lambda: init_order(dv))
+    o.d("devPostOrder", "List String", lambda: post_order(dv))
     o.d("chanInitdoneLast", "Bool", lambda: initdone_last(ch))
     o.d("devInitdoneLast", "Bool", lambda: initdone_last(dv))
 
@@ -742,7 +772,90 @@ def gen_record(repo):
     return o
 
 
-GENERATORS = [gen_frame, gen_crc, gen_ids, gen_fmt, gen_types, gen_record]
+def gen_recv(repo):
+    """ParseRecv.recv_handle guards, payload slice and the callback table with its length assertions"""
+    o = Out("Recv", imports=("NxsModel.Struct", "NxsModel.Gen.Ids"))
+    tr = parse(repo, "proto/parserecv.py")
+    R = find_class(tr, "ParseRecv")
+    f = find_func(R, "recv_handle")
+    ifs = [n for n in ast.walk(f) if isinstance(n, ast.If)]
+
+    def ret_none(i):
+        return any(isinstance(s, ast.Return) and s.value is None for s in i.body)
+
+    def has(test_src):
+        return any(unparse(i.test) == test_src and ret_none(i) for i in ifs)
+    o.d("guardNoSof", "Bool", lambda: lean_bool(has("hdr_start < 0")), "no start byte -> ignored")
+    o.d("guardShort", "Bool", lambda: lean_bool(has("len(data) - hdr_start < self._frame.hdr_len + self._frame.foot_len")),
+        "fewer than hdr+foot bytes after the start byte -> ignored")
+    o.d("guardHdr", "Bool", lambda: lean_bool(has("hdr.err is not EParseError.NOERR")))
+    o.d("guardMin", "Bool", lambda: lean_bool(has("hdr.flen < self._frame.hdr_len + self._frame.foot_len")))
+    o.d("guardMax", "Bool", lambda: lean_bool(has("hdr.flen > len(data)")))
+    o.d("guardCrc", "Bool", lambda: lean_bool(has("self._frame.foot_validate(data[:hdr.flen]) is False")))
+
+    def shape():
+        s = unparse(f)
+        need = ["hdr_start = self._frame.hdr_find(data)", "data = data[hdr_start:]",
+                "hdr = self._frame.hdr_decode(data)",
+                "fdata = data[self._frame.hdr_len:hdr.flen - self._frame.foot_len]",
+                "self._recv_cb_handle(hdr.fid, fdata)"]
+        pos = []
+        for n in need:
+            if n not in s:
+                raise Missing(f"recv_handle statement {n!r}")
+            pos.append(s.index(n))
+        if pos != sorted(pos):
+            raise Missing("recv_handle statement order")
+        # crop must come before header decode and guards on the cropped data
+        return "true"
+    o.d("shapeOk", "Bool", shape, "find, crop, decode, guards, slice [hdr_len : flen - foot_len], dispatch")
+
+    # callback table: fid -> (cb name, assertion op, k)
+    def table():
+        h = find_func(R, "_recv_cb_handle")
+        rows = []
+        node = h.body[0]
+        while isinstance(node, ast.If):
+            m = re.fullmatch(r"fid == EParseId\.(\w+)", unparse(node.test))
+            if not m or len(node.body) != 1:
+                raise Missing("_recv_cb_handle branch " + unparse(node.test))
+            mm = re.fullmatch(r"self\._recv_cb_(\w+)\(fdata\)", unparse(node.body[0]))
+            if not mm:
+                raise Missing("_recv_cb_handle call " + unparse(node.body[0]))
+            rows.append((m.group(1), mm.group(1)))
+            if len(node.orelse) == 1 and isinstance(node.orelse[0], ast.If):
+                node = node.orelse[0]
+            else:
+                if [unparse(x) for x in node.orelse] != ["raise AssertionError"]:
+                    raise Missing("_recv_cb_handle else: raise AssertionError")
+                break
+        out = []
+        for fidname, cb in rows:
+            g = find_func(R, f"_recv_cb_{cb}")
+            body = [unparse(x) for x in g.body if not (isinstance(x, ast.Expr) and isinstance(x.value, ast.Constant))]
+            if len(body) != 2 or body[1] != f"self._recv_cb.{cb}(data)":
+                raise Missing(f"_recv_cb_{cb} body")
+            ma = re.fullmatch(r"assert len\(data\) (==|!=) (\d+)", body[0])
+            if not ma:
+                raise Missing(f"_recv_cb_{cb} assertion")
+            out.append((fidname, cb, ma.group(1) == "==", int(ma.group(2))))
+        return out
+    try:
+        rows = table()
+        o.raw("/-- (frame id, callback name index, assertion is equality?, k): the callback fires iff len(payload) ==/!= k -/")
+        o.raw("def cbTable : List (Nat × Nat × Bool × Nat) := [")
+        names = ["cmninfo", "chinfo", "enable", "div", "start"]
+        for i, (fidname, cb, eq, k) in enumerate(rows):
+            if cb not in names:
+                raise Missing(f"callback {cb}")
+            o.raw(f"  (Nxs.Gen.Ids.id{fidname}, {names.index(cb)}, {lean_bool(eq)}, {k}){',' if i < len(rows)-1 else ''}  -- {fidname} -> {cb}")
+        o.raw("]")
+    except Missing as e:
+        o.raw(f"def cbTable : List (Nat × Nat × Bool × Nat) := translator_site_missing_Recv_cbTable -- {e}")
+    return o
+
+
+GENERATORS = [gen_frame, gen_crc, gen_ids, gen_fmt, gen_types, gen_record, gen_recv]
 
 
 def write_if_changed(path, text):
